@@ -89,6 +89,9 @@ type Spec struct {
 	// PhysPaths: the pipestance lives below a symbolic link and stage code
 	// reports the fully resolved names of the files it wrote.
 	PhysPaths bool `json:"phys_paths"`
+	// MaxJobs > 0: cluster mode with a real RemoteJobManager and this --maxjobs;
+	// the driver plays the cluster (submitted jobs survive mrp).
+	MaxJobs int `json:"maxjobs"`
 }
 
 // Result is what a run reports besides its trace.
@@ -157,6 +160,8 @@ type Driver struct {
 	vdrBegin  int
 	vdrLocked int
 	removed   vdrTotals
+	inflight  int // cluster jobs submitted and not finished
+	tmplPath  string
 }
 
 type vdrTotals struct {
@@ -246,6 +251,15 @@ func (d *Driver) hook(ev string, kv ...string) {
 	case "VdrRemove":
 		d.vdrRemove(kv)
 		return
+	case "SendJob":
+		if d.spec.MaxJobs > 0 {
+			m := map[string]string{}
+			for i := 0; i+1 < len(kv); i += 2 {
+				m[kv[i]] = kv[i+1]
+			}
+			d.exec(&core.VerifJob{MetadataPath: m["md"], FilesPath: m["files"], JournalFile: m["journal"],
+				Fqname: m["fq"], ShellName: m["kind"]})
+		}
 	}
 	args := make([]interface{}, 0, len(kv)+4)
 	for i := 0; i+1 < len(kv); i += 2 {
@@ -277,6 +291,10 @@ func (d *Driver) exec(vj *core.VerifJob) {
 	d.jobs = append(d.jobs, j)
 	d.res.Execs[key+"#submit"]++
 	d.tr.Emit("JobSubmitted", "job", key, "known", j.inv != nil, "md", d.rel(vj.MetadataPath))
+	if d.spec.MaxJobs > 0 {
+		d.inflight++
+		d.tr.Emit("ClusterSubmit", "job", key, "inflight", d.inflight, "limit", d.spec.MaxJobs)
+	}
 }
 
 func goid() string {
@@ -669,6 +687,11 @@ func chunkOutsSame(pred, act interface{}, resolve func(FileRef) string) bool {
 // end: the job process finishes.
 func (d *Driver) end(j *job) {
 	j.ended = true
+	if d.spec.MaxJobs > 0 {
+		d.mu.Lock()
+		d.inflight--
+		d.mu.Unlock()
+	}
 	fault := d.spec.Faults[j.key]
 	if j.inv == nil && fault == "" {
 		fault = "unknown-job"
@@ -838,7 +861,16 @@ func Run(spec *Spec, workdir string) (res *Result) {
 	if spec.Strict {
 		syntax.SetEnforcementLevel(syntax.EnforceError)
 	}
-	rt, err := core.VerifNewRuntime(&opts, 4, 4, "/nonexistent/mrjob", "/nonexistent/adapters", d.exec)
+	newRuntime := func() (*core.Runtime, error) {
+		if spec.MaxJobs > 0 {
+			d.tmplPath = path.Join(root, "verifq.template")
+			writeFile(d.tmplPath, []byte("#!/bin/sh\n# __MRO_JOB_NAME__ __MRO_THREADS__ __MRO_MEM_GB__\ncd __MRO_JOB_WORKDIR__\n__MRO_CMD__ > __MRO_STDOUT__ 2> __MRO_STDERR__\n"))
+			o := opts
+			return core.VerifNewRemoteRuntime(&o, 4, 4, d.tmplPath, "/bin/sh", []string{"-c", "cat > /dev/null; echo j$$"}, spec.MaxJobs)
+		}
+		return core.VerifNewRuntime(&opts, 4, 4, "/nonexistent/mrjob", "/nonexistent/adapters", d.exec)
+	}
+	rt, err := newRuntime()
 	if err != nil {
 		res.Error = "runtime: " + err.Error()
 		return
@@ -866,6 +898,9 @@ func Run(spec *Spec, workdir string) (res *Result) {
 		d.mu.Lock()
 		for _, j := range d.jobs {
 			if !j.ended {
+				if spec.MaxJobs > 0 {
+					continue // a cluster job lives on; the restarted mrp re-attaches to it
+				}
 				if j.begun && spec.Orphans {
 					j.key = j.key + "#orphan" // finishes later, in its old directory
 					j.inv2 = j.inv
@@ -888,7 +923,7 @@ func Run(spec *Spec, workdir string) (res *Result) {
 		}
 		d.tr.Emit("Restart")
 		d.script = append(d.script, "RESTART")
-		rt2, err := core.VerifNewRuntime(&opts, 4, 4, "/nonexistent/mrjob", "/nonexistent/adapters", d.exec)
+		rt2, err := newRuntime()
 		if err != nil {
 			res.Error = "runtime: " + err.Error()
 			return
@@ -902,7 +937,11 @@ func Run(spec *Spec, workdir string) (res *Result) {
 		}
 		d.ps = ps2
 		if err := ps2.Reset(); err == nil {
-			err = ps2.RestartLocalJobs("local")
+			mode := "local"
+			if spec.MaxJobs > 0 {
+				mode = d.tmplPath // cmd/mrp passes its --jobmode
+			}
+			err = ps2.RestartLocalJobs(mode)
 		}
 		if err != nil {
 			res.Error = "reset: " + err.Error()
@@ -938,6 +977,9 @@ func (d *Driver) loop(ctx context.Context) {
 	for it := 0; it < maxIter; it++ {
 		d.res.Iter = it
 		nscript := len(d.script)
+		if d.spec.MaxJobs > 0 {
+			time.Sleep(4 * time.Millisecond) // submissions happen in goroutines of the job manager
+		}
 		// ---- environment steps before the refresh and between refresh and step
 		for phase := 0; phase < 2; phase++ {
 			switch sc.Kind {
